@@ -346,6 +346,7 @@ func (p *Peer) handleReplicatorFailure(ctx context.Context, peerID, docID string
 	// safe to use a mutex to prevent unnecessary conflicts.
 	p.handleRetryMutex.Lock()
 	defer p.handleRetryMutex.Unlock()
+	defer verifGate("failure.recorded", p, docID)
 
 	clientTxn, err := p.db.NewTxn(ctx, false)
 	if err != nil {
@@ -645,6 +646,7 @@ func (p *Peer) retryReplicator(ctx context.Context, peerID string) {
 			// if one doc fails, stop retrying the rest and just wait for the next retry
 			return
 		}
+		verifGate("retry.pushed", p, key.DocID)
 		err = datastore.PeerstoreFrom(p.db.Rootstore()).Delete(ctx, key.Bytes())
 		if err != nil {
 			log.ErrorContextE(ctx, "Failed to delete retry docID", err)
